@@ -122,7 +122,7 @@ async fn run_client(log: &Log, seed: u64, round: u64) {
             if let Ok((stream, sess)) = out {
                 let new = !seen.iter().any(|s| s.id() == sess.id());
                 if new { seen.push(sess.clone()); }
-                ev!(log, "cserved", r: 50 + j as u64, s: sess.id(), new: new, sclosed: sess.is_closed());
+                ev!(log, "cserved", r: 50 + j as u64, s: sess.id(), new: new, sclosed: sess.is_closed(), overlap: true);
                 held.push((50 + j as u64, stream));
             }
         }
@@ -260,10 +260,7 @@ async fn start_relay(upstream: String) -> Relay {
     Relay { addr, dials, live }
 }
 
-fn closed_port() -> u16 {
-    let l = std::net::TcpListener::bind("127.0.0.1:0").expect("bind");
-    l.local_addr().unwrap().port()
-}
+fn closed_port() -> u16 { net::refusing_addr().port() }
 
 /// Client level with the reaper out of reach (idle timeout 60 s): sequential requests, bursts of
 /// overlapping requests, destinations the server cannot reach, external session deaths. The
